@@ -1,10 +1,10 @@
 #!/bin/bash
-# Run once after a fresh restore, offline: warms the Go build cache and builds the check binary.
+# Run once after a fresh restore, offline: warms the Go build cache (normal and instrumented binaries).
 set -e
 cd "$(dirname "$0")/.."
 . scripts/env.sh
 mkdir -p .work/bin evidence replays
 go build -tags verif -o .work/bin/check.setup ./cmd/check
-rm -f .work/bin/check.setup
-go vet -tags verif ./internal/... >/dev/null 2>&1 || true
+scripts/build_instr.sh .work/bin/check-instr.setup
+rm -f .work/bin/check.setup .work/bin/check-instr.setup
 echo setup ok
